@@ -209,7 +209,8 @@ def check_property(pid, tier):
                 continue
         funcs_uc.append(dict(function=r["function"], variant=r["variant"], lines=r.get("lines"), source_sha=r.get("source_sha"),
                              obligations=len(r["obligations"]), loops_cut=r["loops_cut"], paths=r["paths"], wall_s=r["wall_s"],
-                             callees_by_contract=r["used_contracts"], callees_inlined=r["inlined"]))
+                             callees_by_contract=r["used_contracts"], callees_inlined=r["inlined"],
+                             solver_rlimit_units=(r.get("solver") or {}).get("rlimit_last"), solver_checks=(r.get("solver") or {}).get("checks")))
         trusted.update(r["trusted"])
         if not r["obligations"] and not r["error"]:
             errors.append("%s: zero obligations generated (vacuous)" % r["function"])
@@ -310,7 +311,8 @@ def check_property(pid, tier):
         samples=samples,
         explanation=P["explanation"],
         undecided=undecided, checker_errors=errors, further_failed_obligations=more_failed,
-        engine_crosscheck=[dict(function=x["function"], status=x["status"], cases=x.get("satisfying_precondition"), why=x.get("why")) for x in xc],
+        engine_crosscheck=[dict(function=x["function"], status=x["status"], cases=x.get("satisfying_precondition"), why=x.get("why"),
+                                clauses_not_evaluated_at_run_time=x.get("clauses_not_evaluated_at_run_time") or []) for x in xc],
         known_findings_reported=[k[0].get("what") for k in known_hits],
     )
     if bounded and not bounded.get("error"):
